@@ -267,6 +267,10 @@ func (e *Engine) assumeAllocated(s *State, t types.Type, x string) {
 	case *types.Pointer, *types.Map, *types.Chan:
 		al := e.heapGet(s, "Alloc", "(Array Int Bool)")
 		s.assume(or(eq(x, "0"), app("select", al, x)))
+	case *types.Interface:
+		// the object an interface value wraps (if it wraps a pointer) exists
+		al := e.heapGet(s, "Alloc", "(Array Int Bool)")
+		s.assume(or(eq(x, "0"), eq(app("iref", x), "0"), app("select", al, app("iref", x))))
 	}
 }
 
@@ -450,6 +454,29 @@ func (e *Engine) load(s *State, a *Addr, in ssa.Instruction) *Val {
 					name = e.heapNameField(a.SKey, a.Path, l.Path)
 				} else {
 					name = "C!" + typeKey(t) + l.Path
+				}
+				// nothing stored in shared memory can be a reference this activation allocated and has
+				// not let escape (objects owned by such a reference excepted: they are reached through it)
+				if !(s.FreshRefs[a.Base] || s.Private[a.Base]) {
+					var frs []string
+					for r := range s.FreshRefs {
+						frs = append(frs, r)
+					}
+					for r := range s.Private {
+						if !s.FreshRefs[r] {
+							frs = append(frs, r)
+						}
+					}
+					sort.Strings(frs)
+					var baseOther, ldOther []string
+					for _, r := range frs {
+						baseOther = append(baseOther, not(eq(a.Base, r)))
+						ldOther = append(ldOther, not(eq(ld, r)))
+					}
+					if len(frs) > 0 {
+						// semantic guard: the location read must itself not belong to such an object
+						s.assume(implies(and(baseOther...), and(ldOther...)))
+					}
 				}
 				h0 := "H0!" + name
 				if s.Decl[h0] && s.Decl["H0!Alloc"] {
@@ -844,7 +871,7 @@ func (e *Engine) loopEnter(s *State, fn *ssa.Function, l *loop) {
 	var invs []Clause
 	var dec *Clause
 	if c != nil {
-		invs = c.LoopInv[l.ordinal]
+		invs = e.loopInvs(c, l.ordinal)
 		if d, ok := c.LoopDec[l.ordinal]; ok {
 			dec = &d
 		}
@@ -958,7 +985,7 @@ func (e *Engine) loopBack(s *State, fn *ssa.Function, l *loop) {
 	if cur, ok := s.Ghost[iterKey]; ok {
 		s.Ghost[iterKey] = app("+", cur, "1")
 	}
-	for k, inv := range c.LoopInv[l.ordinal] {
+	for k, inv := range e.loopInvs(c, l.ordinal) {
 		cx := e.specCtx(s, fn)
 		cx.LoopSnap = s.LoopHeap[l.header]
 		t := e.evalBool(s, cx, inv.Expr)
@@ -1271,4 +1298,13 @@ func (e *Engine) checkGuardContents(s *State, v *Val, in ssa.Instruction, write 
 	i := strings.LastIndex(v.Src, ".")
 	skey, field := v.Src[:i], v.Src[i+1:]
 	e.checkGuard(s, &Addr{K: AField, Base: v.SrcBase, SKey: skey, Path: "." + field}, in, write)
+}
+
+// loopInvs: the invariants of loop k; the sequential pass adds the invariant_exclusive ones.
+func (e *Engine) loopInvs(c *Contract, k int) []Clause {
+	invs := c.LoopInv[k]
+	if e.Exclusive {
+		invs = append(append([]Clause{}, invs...), c.LoopInvExcl[k]...)
+	}
+	return invs
 }
